@@ -162,6 +162,10 @@ def run_case(case, chooser, max_steps=100_000, max_time=20000.0, keep_log=False)
         ctx.tables.clear()
         del ctx.gws[:]
         ctx.group = None
+        import sys as _sys
+        br = _sys.modules.get("vsim_bridge")
+        if br is not None and getattr(br, "CTX", None) is ctx:
+            br.CTX = None  # or the old world stays reachable until the next run has already started
 
     w.cleanup.append(cleanup)
     reason = w.run()
